@@ -80,8 +80,8 @@ def check_c08(ctx):
             if c == "Model":
                 drift += 1
                 continue
-            sig = "clause=%s observed=%s" % (c, "raised" if x["obs"]["raised"] else x["obs"]["shape"])
-            if c == "OneResponsePerRequest" and x["obs"]["shape"] == "none" and not x["obs"]["raised"]:
+            sig = "clause=%s observed=%s method=%s id=%s" % (c, "raised" if x["obs"]["raised"] else x["obs"]["shape"], x["mclass"], x["idc"] if x["kind"] == "request" else "-")
+            if c == "OneResponsePerRequest" and x["obs"]["shape"] == "none" and not x["obs"]["raised"] and x["mclass"] in ("customNone", "notifications/initialized"):
                 sig = "clause=OneResponsePerRequest observed=no-response handler-returned-none"
             ctx.report(sig, "%s %s params=%s id=%s -> %s" % (x["kind"], x["mclass"], x["pshape"], x["idc"], x["obs"]),
                        {"kind": "dispatch_case", "case": {k: x[k] for k in ("kind", "mclass", "pshape", "idc", "typed")}, "clause": c})
